@@ -154,3 +154,36 @@ Print Assumptions C07_option82_suboptions_total.
 Theorem C07_radius_attr80_total : forall raw, is_crash (attr80_window raw) = false.
 Proof. exact attr80_window_total. Qed.
 Print Assumptions C07_radius_attr80_total.
+
+(* ---- well-formed input parses to the values it was built from ---- *)
+(* FSM.SerializeOptions then ParseOptions: every option list whose options fit the one-byte length *)
+Theorem C07_ppp_options_roundtrip :
+  forall opts, Forall wf_opt opts -> ppp_parse_options (ppp_serialize_options opts) = Ok opts.
+Proof. exact ppp_options_roundtrip. Qed.
+Print Assumptions C07_ppp_options_roundtrip.
+Example C07_ppp_options_roundtrip_nonvacuous :
+  Forall wf_opt [(1, [5; 220]); (5, [1; 2; 3; 4]); (3, [194; 35; 5])] /\
+  ppp_serialize_options [(1, [5; 220]); (5, [1; 2; 3; 4]); (3, [194; 35; 5])] =
+    [1; 4; 5; 220; 5; 6; 1; 2; 3; 4; 3; 5; 194; 35; 5].
+Proof. exact ppp_options_roundtrip_nonvacuous. Qed.
+Print Assumptions C07_ppp_options_roundtrip_nonvacuous.
+(* PAPHandler.SendAuthReq then HandleAuthReq (and the session's copy) *)
+Theorem C07_pap_roundtrip :
+  forall u p, lenN u < 256 -> lenN p < 256 -> pap_req (pap_build u p) = Ok (Some (u, p)).
+Proof. exact pap_roundtrip. Qed.
+Print Assumptions C07_pap_roundtrip.
+Example C07_pap_roundtrip_nonvacuous :
+  lenN [117; 115; 101; 114] < 256 /\ lenN [112; 119] < 256 /\
+  pap_build [117; 115; 101; 114] [112; 119] = [4; 117; 115; 101; 114; 2; 112; 119].
+Proof. exact pap_roundtrip_nonvacuous. Qed.
+Print Assumptions C07_pap_roundtrip_nonvacuous.
+(* CHAP value-size | value | name framing (SendChallenge / the response a peer builds) *)
+Theorem C07_chap_roundtrip :
+  forall v n, lenN v < 256 -> chap_response (chap_build v n) = Ok (Some (v, n)).
+Proof. exact chap_roundtrip. Qed.
+Print Assumptions C07_chap_roundtrip.
+(* the hypotheses of the *_fuel theorems and of the nesting theorem are satisfiable *)
+Example C07_fuel_nonvacuous :
+  (length [12; 0; 0; 9; 0; 4; 1; 2; 3; 4] < 11)%nat /\ 4 <= 34.
+Proof. exact fuel_nonvacuous. Qed.
+Print Assumptions C07_fuel_nonvacuous.
